@@ -362,7 +362,8 @@ example : ∃ b, (buildExpr { ees := [], classes := [] } (.bin (.int "1") "+" (.
 
 /-- BODY level, sub-subset `coreB` (statement lists of assignment to a variable / attribute, return, break, continue,
     control stop, create with / without variable, select from instances (+ where), delete, relate / unrelate (+ using), `while` /
-    `for each` loops and `if` with elif / else clauses over such lists, nested to any depth): in the population of a whole body every key that is
+    `for each` loops and `if` with elif / else clauses over such lists, nested to any depth; every expression a `coreX`
+    expression, i.e. `coreE` + `self` anywhere — the V_VAR / V_INT rows its first look-up creates included): in the population of a whole body every key that is
     searched backwards — the supertype an R603 / R801 subtype row names, Block_ID (R602) and Previous_Statement_ID
     (R661) of an ACT_SMT, the `if` of an ACT_EL / ACT_E (R682 / R683) — names a row created EARLIER: it exists (no
     dangling key) and the successor relation has no cycle.
